@@ -390,3 +390,18 @@ class OutBuf(object):
             return len(self.backing) == self.n
         return (all(b == self.GUARD for b in self.backing[:self.off]) and
                 all(b == self.GUARD for b in self.backing[self.off + self.n:]))
+
+
+# --------------------------------------------------------------------------
+# very large inputs without the memory: an anonymous, never-written mapping (every page is the kernel's zero page)
+
+_HUGE = {}
+
+
+def huge_zeros(n):
+    import mmap
+    m = _HUGE.get("mm")
+    if m is None or len(m) < n:
+        m = mmap.mmap(-1, n + 4096)
+        _HUGE["mm"] = m
+    return memoryview(m)[:n]
